@@ -22,10 +22,44 @@ can be stored in replay files:
 from __future__ import annotations
 
 import io
+import itertools
 import warnings
 from typing import Any
 
 ERR = {None: 0, 'KeyError': 1, 'ValueError': 2}
+
+
+class Hang(BaseException):
+    """The implementation did not come back within the time limit (a fault can turn make_unique's `while True`, an
+    index iteration or search() into an endless loop).  BaseException: no `except Exception` on the way swallows it."""
+
+
+class time_limit:
+    """with time_limit(seconds): ...   raises Hang in the main thread when the block runs longer (SIGALRM; a no-op in
+    other threads).  A whole history takes milliseconds; the limit is generous (>= 100x) so that load cannot trip it."""
+
+    def __init__(self, seconds: float) -> None:
+        self.seconds = seconds
+        self.active = False
+
+    def _fire(self, signum, frame):
+        raise Hang(f'no answer within {self.seconds} s')
+
+    def __enter__(self):
+        import signal
+        import threading
+        if threading.current_thread() is threading.main_thread():
+            self.active = True
+            self.old = signal.signal(signal.SIGALRM, self._fire)
+            signal.setitimer(signal.ITIMER_REAL, self.seconds)
+        return self
+
+    def __exit__(self, *exc):
+        import signal
+        if self.active:
+            signal.setitimer(signal.ITIMER_REAL, 0)
+            signal.signal(signal.SIGALRM, self.old)
+        return False
 
 
 class World:
@@ -227,7 +261,10 @@ class World:
                 out.append(('worldspawn', 'unindexed', None))
         for q in queries:
             try:
-                got_l = list(vmf.search(q))
+                got_l = list(itertools.islice(vmf.search(q), 1000))
+                if len(got_l) >= 1000:
+                    out.append(('search', 'endless', {'query': q}))
+                    continue
             except Exception as exc:    # noqa: BLE001
                 out.append(('search', 'raised', {'query': q, 'error': repr(exc)}))
                 continue
